@@ -68,7 +68,7 @@ class SplittingSimulation(BaseSimulation):
                 'name': self.decoders[0].id,
                 'parameters': self.decoders[0].params,
             },
-            'error_rates': self.error_rates,
+            'error_rates': self.error_rates.tolist(),
             'method': {
                 'name': 'splitting',
                 'parameters': {
